@@ -338,7 +338,7 @@ Variable specpat : vop -> text -> option (vop * list N).
 Variable specver : vop -> text -> option (vop * list N).
 Variables pv pfv : N.
 Variable specparse : text -> option spec.
-Variable url_oracle : bool -> text -> option text.
+Variable url_oracle : ukind -> text -> option text.
 Variable getenv : text -> option text.
 Variable project_root : text.
 Variables verbatim ext : bool.
